@@ -1102,7 +1102,8 @@ int main (void)
     else if (!strcmp (w[0], "tcpconn") && n == 3) {
       /* a foreign party opens its own (real, loopback) TCP connection to <ip:port>, e.g. an agent's tcp-passive candidate */
       struct sockaddr_in sa; int fd, k;
-      for (k = 0; k < 8 && foreign_tcp[k].fd > 0 && strcmp (foreign_tcp[k].name, w[1]); k++) ;
+      for (k = 0; k < 8 && !(foreign_tcp[k].fd > 0 && !strcmp (foreign_tcp[k].name, w[1])); k++) ;   /* same name: reuse */
+      if (k == 8) for (k = 0; k < 8 && foreign_tcp[k].fd > 0; k++) ;                                      /* else a free slot */
       if (k < 8 && w[2][0] == '@' && (g = find_ag (w[2] + 1)) && g->alive) {
         /* @<agent>: the agent's first tcp-passive host candidate (stream 1, component 1) */
         GSList *cl = nice_agent_get_local_candidates (g->agent, 1, 1), *ci; static char tmp[80]; tmp[0] = 0;
@@ -1194,7 +1195,14 @@ int main (void)
       /* number of open descriptors (leak detection for sockets) */
       /* sockets only: GLib itself lazily creates eventfds (wakeups, GTask pool) that are not libnice's */
       int fd, n = 0; struct stat sb;
-      for (fd = 0; fd < 1024; fd++) if (fstat (fd, &sb) == 0 && S_ISSOCK (sb.st_mode)) n++;
+      for (fd = 0; fd < 1024; fd++) if (fstat (fd, &sb) == 0 && S_ISSOCK (sb.st_mode)) {
+        n++;
+        if (getenv ("SIM_DEBUG_FDS")) { struct sockaddr_in a, b; socklen_t al = sizeof a, bl = sizeof b; int ty = 0; socklen_t tl = sizeof ty;
+          memset (&a, 0, sizeof a); memset (&b, 0, sizeof b);
+          getsockname (fd, (struct sockaddr *) &a, &al); getpeername (fd, (struct sockaddr *) &b, &bl); getsockopt (fd, SOL_SOCKET, SO_TYPE, &ty, &tl);
+          fprintf (stderr, "fd %d type %d local %s:%u", fd, ty, inet_ntoa (a.sin_addr), ntohs (a.sin_port));
+          fprintf (stderr, " peer %s:%u vudp=%d\n", inet_ntoa (b.sin_addr), ntohs (b.sin_port), is_vudp (fd)); }
+      }
       printf ("ok fds %d\n", n);
     }
     else if (!strcmp (w[0], "drain")) { total_dispatches += iterate_ready (); puts ("ok"); }
